@@ -26,7 +26,8 @@ class Ob:
     def __init__(s, name, harness, roots, what, bound, stubs=(), ir='inl', model='bit', rename=None, shrink=(),
                  variants=None, unwind=None, unwindset=(), flags=(), timeout=300, mem_gb=8, tier='quick', real=True,
                  validate=True, nvec=60, wrap_files=False, excludes=(), defines=None, witness=True, no_unwind_assert=False,
-                 solver='cadical', real_stub_syms=(), retry_defines=(), fallback=None):
+                 solver='cadical', real_stub_syms=(), retry_defines=(), fallback=None, callrename=None):
+        s.callrename = {(a, b): c for a, d in (callrename or {}).items() for b, c in d.items()}
         s.retry_defines = list(retry_defines); s.fallback = fallback
         s.name, s.harness, s.roots, s.what, s.bound = name, harness, list(roots), what, bound
         s.stubs, s.ir, s.model, s.rename, s.shrink = list(stubs), ir, model, dict(rename or {}), list(shrink)
@@ -128,7 +129,7 @@ def prepare(run, ob, v):
     import io, contextlib
     err = io.StringIO()
     with TRANSLATE_LOCK, contextlib.redirect_stderr(err):
-        c = ir2c.translate(m, ob.roots, rn, set(ob.stubs), ob.model, shrink)
+        c = ir2c.translate(m, ob.roots, rn, set(ob.stubs), ob.model, shrink, callrename=ob.callrename)
         fns, stubs = list(ir2c.translate.last_functions), list(ir2c.translate.last_stubs)
         h = ir2c.translate(m, ob.roots, dict(ob.rename), set(ob.stubs), 'bit', shrink, decls_only=True)
     open(os.path.join(d, 'unit.c'), 'w').write(c)
